@@ -4,6 +4,7 @@ import (
 	"fmt"
 	"math/rand"
 	"strconv"
+	"strings"
 	"sync"
 	"sync/atomic"
 
@@ -12,12 +13,16 @@ import (
 	"verifharness/rig"
 )
 
-var upstreamsU = []string{"alpha", "beta", "gamma", "delta"}
-var suffixes = []string{"state", "i1", "i2"}
+// upstreams and names that are prefixes of each other; the limiter's <upstream>.state shape among the names
+var upstreamsU = []string{"alpha", "alphabet", "gamma", "delta"}
+var suffixes = []string{"state", "i1", "i2", "i11"}
 var faultKinds = []string{"notFound", "conflict", "alreadyExists", "transient", "lost"}
 
 func genCond(r *rand.Rand, up, name string) *CondJ {
-	c := &CondJ{Name: rig.Hex(name), Up: rig.Hex(up), Spec: 1 + r.Intn(5), Status: r.Intn(6), Labels: r.Intn(3)}
+	c := &CondJ{Name: rig.Hex(name), Up: rig.Hex(up), Spec: 1 + r.Intn(6), Status: r.Intn(6), Labels: r.Intn(3)}
+	if strings.HasSuffix(name, ".state") && r.Intn(4) != 0 {
+		c.Spec = 2 * (1 + r.Intn(3)) // the upstream's own state condition has no instance
+	}
 	if r.Intn(4) == 0 {
 		c.Rv = 1 + r.Intn(12) // callers derive the object from a cached one: it carries some (often stale) resourceVersion
 	}
